@@ -232,8 +232,9 @@ pub enum IntervalError { InvalidBounds, EmptyInterval }
 //@impl src/interval.rs impl<T: PartialOrd> Interval<T>
 //@fn new ret r
 //@| requires T::obeys_partial_cmp_spec(),
-//@| ensures gt(low, high) ==> r is Err && r->Err_0 is InvalidBounds,
-//@|         !gt(low, high) ==> r == Ok::<Self, IntervalError>(Interval::TwoSided(low, high)),
+//@| ensures le(low, high) ==> r == Ok::<Self, IntervalError>(Interval::TwoSided(low, high)),
+//@|         !le(low, high) ==> r is Err && r->Err_0 is InvalidBounds,
+//@|         r is Ok ==> wf(r->Ok_0),
 //@fn new_upper ret r
 //@| ensures r == Interval::UpperOneSided(low),
 //@fn new_lower ret r
